@@ -253,6 +253,266 @@ def bad(chk, desc, why, op, kind):
                   ctx=dict(site="world." + op, kind=kind))
 
 
+OMIT = 999999
+
+
+def enc(v):
+    v = float(v)
+    return geom.NAN if math.isnan(v) else int(v)
+
+
+def drive(kinds, catelems, rkind, rcat_elems, rng, n, steps, tmp, tag, notes):
+    """code -> spec: a random history on real objects; returns {"rows": ..., "ev": [...]} for Trace_World.
+    The driver mirrors only the enabling conditions of World's actions (form, ordered, indexed, row count), never the values."""
+    import dask.dataframe as dd
+    import spatialpandas as sp
+    from spatialpandas.io import read_parquet, read_parquet_dask, to_parquet
+    rows0 = [[i + 1, rng.randrange(len(catelems[0])) + 1, rng.randrange(len(catelems[1])) + 1] for i in range(n)]
+    obj = sp.GeoDataFrame({"id": np.array([r[0] for r in rows0], dtype="int64"),
+                           "ga": geom.make_array(kinds[0], [catelems[0][r[1] - 1] for r in rows0]),
+                           "gb": geom.make_array(kinds[1], [catelems[1][r[2] - 1] for r in rows0])})
+    right = sp.GeoDataFrame({"rid": np.arange(1, len(rcat_elems) + 1), "geometry": geom.make_array(rkind, rcat_elems)})
+    form, ordered, indexed, active, last_path = "pandas", True, False, 1, None
+    ev = []
+
+    def axis():
+        r = rng.random()
+        if r < 0.15:
+            v = rng.randrange(-1, 6)
+            return [v, v, 1]
+        lo = OMIT if rng.random() < 0.2 else rng.randrange(-1, 6)
+        hi = OMIT if rng.random() < 0.2 else rng.randrange(-1, 6)
+        return [lo, hi, 0]
+
+    def box():
+        x0, y0 = rng.randrange(-1, 5), rng.randrange(-1, 5)
+        return [x0, y0, x0 + rng.randrange(1, 4), y0 + rng.randrange(1, 4)]
+
+    for step in range(steps):
+        pandas = form == "pandas"
+        nrows = len(obj) if pandas else len(obj.compute())
+        kind = kinds[active - 1]
+        cands = ["ids", "total_bounds", "bounds", "cx", "cx", "intersects_bounds", "intersects_bounds", "measure", "filter", "cx_select"]
+        if pandas:
+            cands += ["sort_desc", "copy", "pickle", "set_geometry", "parquet_roundtrip"] + (["from_pandas"] * 3 if nrows >= 1 else [])
+            cands += ["sindex_intersects"] * 2 if nrows >= 1 else []
+            if ordered and nrows >= 2:
+                cands += ["iloc", "reverse", "concat_rotate"]
+            if not indexed:
+                cands += ["build_sindex"]
+        else:
+            cands += ["compute", "persist", "repartition"]
+            if form == "dask":
+                cands += ["set_geometry", "parquet_roundtrip"] if nrows >= 1 else []
+                if nrows >= 2:
+                    cands += ["pack_partitions", "pack_partitions_to_parquet"]
+            if form == "dataset":
+                cands += ["read_bounds"] * 2
+        if kind == "point" and form in ("pandas", "dask"):
+            cands += ["sjoin"]
+        op = rng.choice(cands)
+        a, b, val = 0, 0, []
+        prev = obj
+        try:
+            if op == "iloc":
+                a = rng.randrange(0, nrows)
+                b = rng.randrange(a + 1, nrows + 1)
+                if a == 0 and b == nrows:
+                    b -= 1
+                obj = obj.iloc[a:b]
+                indexed = False
+            elif op == "filter":
+                a = sorted(rng.sample(range(1, n + 1), rng.randrange(1, n + 1)))
+                obj = obj[obj["id"].isin(a)]
+                indexed = False
+                form = "dask" if form == "dataset" else form
+            elif op == "reverse":
+                obj = obj.iloc[::-1]
+                indexed = False
+            elif op == "sort_desc":
+                obj = obj.sort_values("id", ascending=False)
+                indexed, ordered = False, True
+            elif op == "concat_rotate":
+                a = rng.randrange(1, nrows)
+                obj = pd.concat([obj.iloc[a:], obj.iloc[:a]])
+                indexed = False
+            elif op == "copy":
+                obj = obj.copy()
+            elif op == "pickle":
+                obj = pickle.loads(pickle.dumps(obj))
+            elif op == "persist":
+                obj = obj.persist()
+            elif op == "repartition":
+                obj = obj.repartition(npartitions=1)
+            elif op == "set_geometry":
+                a = 3 - active
+                obj = obj.set_geometry("ga" if a == 1 else "gb")
+                active, indexed = a, False
+            elif op == "build_sindex":
+                a = rng.choice([1, 2, 3])
+                obj.build_sindex(page_size=a)
+                indexed = True
+            elif op == "from_pandas":
+                a = rng.choice([1, 2, 3, 4])
+                obj = dd.from_pandas(obj, npartitions=a)
+                form, indexed, ordered = "dask", False, False
+            elif op == "compute":
+                obj = obj.compute()
+                form = "pandas"
+            elif op == "pack_partitions":
+                a = rng.choice([1, 2, 3])
+                try:
+                    obj = obj.pack_partitions(npartitions=a, p=rng.choice([4, 6, 10]))
+                    obj.compute()
+                except Exception:  # noqa: BLE001
+                    notes["driver_pack_raised"] = notes.get("driver_pack_raised", 0) + 1
+                    break
+                ordered = False
+            elif op == "parquet_roundtrip":
+                path = os.path.join(tmp, f"{tag}_{step}.parq")
+                if pandas:
+                    to_parquet(obj, path)
+                    obj = read_parquet(path)
+                else:
+                    obj.to_parquet(path)
+                    obj = read_parquet_dask(path)
+                    form, last_path = "dataset", path
+                active = 1
+            elif op == "pack_partitions_to_parquet":
+                a = rng.choice([1, 2, 3, 5])
+                path = os.path.join(tmp, f"{tag}_{step}.parq")
+                try:
+                    obj = obj.pack_partitions_to_parquet(path, npartitions=a, p=rng.choice([4, 6]), _retry_args=dict(stop_max_attempt_number=2, wait_fixed=1))
+                except Exception:  # noqa: BLE001
+                    notes["driver_pack_raised"] = notes.get("driver_pack_raised", 0) + 1
+                    break
+                form, last_path, active, ordered = "dataset", path, 1, False
+            elif op == "cx_select":
+                a = [axis(), axis()]
+                res = obj.cx[c04.axis_arg(a[0]), c04.axis_arg(a[1])]
+                if len(res if pandas else res.compute()) == 0:
+                    continue                      # World only selects non-empty results (an empty one is an observation, below)
+                obj = res
+                indexed = False
+                form = "dask" if form == "dataset" else form
+            elif op == "ids":
+                val = sorted(int(i) for i in (obj["id"] if pandas else obj["id"].compute()))
+            elif op == "total_bounds":
+                tb = obj.geometry.array.total_bounds if pandas else obj.geometry.total_bounds
+                val = [enc(v) for v in tb]
+            elif op == "bounds":
+                bd, idc = obj.geometry.bounds, obj["id"]
+                if not pandas:
+                    bd, idc = bd.compute(), idc.compute()
+                val = [[int(i), [enc(v) for v in row]] for i, row in zip(idc, bd.values)]
+            elif op == "cx":
+                a = [axis(), axis()]
+                res = obj.cx[c04.axis_arg(a[0]), c04.axis_arg(a[1])]
+                val = sorted(int(i) for i in (res if pandas else res.compute())["id"])
+            elif op == "intersects_bounds":
+                a = box()
+                m, idc = obj.geometry.intersects_bounds(tuple(float(v) for v in a)), obj["id"]
+                if not pandas:
+                    m, idc = m.compute(), idc.compute()
+                val = sorted(int(i) for i, h in zip(idc, m) if h)
+            elif op == "sindex_intersects":
+                a = box()
+                pos = obj.geometry.array.sindex.intersects(tuple(float(v) for v in a))
+                val = sorted(int(obj["id"].iloc[int(k)]) for k in pos)
+            elif op == "measure":
+                ar, na, idc = obj.geometry.area, obj.geometry.isna(), obj["id"]
+                if not pandas:
+                    ar, na, idc = ar.compute(), na.compute(), idc.compute()
+                val = [[int(i), int(round(2 * float(x)))] for i, x, m in zip(idc, ar, na) if not m]
+                if any(abs(2 * float(x) - round(2 * float(x))) > 0 for x, m in zip(ar, na) if not m):
+                    val = [[0, -1]]               # a non-integral doubled area on integer coordinates can never match
+            elif op == "sjoin":
+                a = rng.choice(["inner", "left"])
+                res = sp.sjoin(obj, right, how=a)
+                if not pandas:
+                    res = res.compute()
+                def nn(v):
+                    return 0 if (v is None or (isinstance(v, float) and math.isnan(v)) or v is pd.NA) else int(v)
+                val = sorted([nn(x), nn(y)] for x, y in zip(res["id"], res["rid"]))
+            elif op == "read_bounds":
+                a = box()
+                bx = tuple(float(v) for v in a)
+                sub = read_parquet_dask(last_path, geometry="ga" if active == 1 else "gb", bounds=bx)
+                got = set(int(i) for i in sub.compute()["id"]) if sub.npartitions else set()
+                val = sorted(int(i) for i in sub.cx[bx[0]:bx[2], bx[1]:bx[3]].compute()["id"]) if got else []
+                allids = set(int(i) for i in obj["id"].compute())
+                if not got <= allids:
+                    val = [-1]                    # rows that are not stored can never match
+            if obj is not prev and form != "pandas":
+                obj.compute()
+        except Exception as ex:  # noqa: BLE001
+            import traceback
+            tb = traceback.format_exc()
+            if (isinstance(ex, IndexError) and "out-of-bounds" in str(ex) and hasattr(prev, "npartitions") and dask_partitions_bug(prev)) or \
+                    (isinstance(ex, AssertionError) and "dask_expr/_repartition.py" in tb):
+                notes["driver_dask_quirk"] = notes.get("driver_dask_quirk", 0) + 1
+                break
+            ev.append(dict(op="RAISED", a=0, b=0, val=[], what=f"{op}({a}) raises {type(ex).__name__}: {ex}"[:400]))
+            break
+        ev.append(dict(op=op, a=a, b=b, val=val))
+    return dict(rows=rows0, ev=ev)
+
+
+def drive_stage(chk, quick, seed):
+    """code -> spec: random driver histories judged by Trace_World; returns the number of histories"""
+    import dask
+    import json
+    from .tlaval import iter_dump
+    cats = c04.catalogues()
+    tmp = tempfile.mkdtemp(prefix="worldt-", dir=os.environ.get("TMPDIR") or "/var/tmp")
+    rng = __import__("random").Random(seed * 7919 + 13)
+    total = 0
+    tally = {}
+    try:
+        with dask.config.set(scheduler="synchronous"):
+            for ci, (kind, cat, kind2, cat2, rkind, rcat) in enumerate(CONFIGS[:2] if quick else CONFIGS):
+                notes = {}
+                traces = [drive((kind, kind2), (cats[cat], cats[cat2]), rkind, cats[rcat], rng, rng.choice([3, 5, 8]), 10 if quick else 14, tmp, f"d{ci}_{k}", notes)
+                          for k in range(10 if quick else 120)]
+                for k_, v_ in notes.items():
+                    chk.notes[k_] = chk.notes.get(k_, 0) + v_
+                wd = scratch("world-trace")
+                path = os.path.join(wd, "traces.json")
+                with open(path, "w") as f:
+                    json.dump(traces, f)
+                r = run_tlc("Trace_World", cfg=dict(spec="TSpec", constants=dict(Kind1=kind, Elems1="<- " + cat, Kind2=kind2, Elems2="<- " + cat2, RKind=rkind,
+                                                                                 RElems="<- " + rcat, N=8, MaxOps=99, Bias="none"), check_deadlock=False),
+                            env={"TRACE_FILE": path}, workers=4, dump=True, timeout=3000)
+                chk.add_tlc(r)
+                best = {}
+                for st in iter_dump(r.dump):
+                    t = st["tid"]
+                    if st["verdict"] == "accepted":
+                        best[t] = ("accepted", st["l"])
+                    elif best.get(t, ("", 0))[0] != "accepted" and st["l"] >= best.get(t, ("", 0))[1]:
+                        best[t] = ("running", st["l"])
+                for t, tr in enumerate(traces, start=1):
+                    total += 1
+                    v, pos = best.get(t, ("missing", 0))
+                    for e in tr["ev"]:
+                        tally[e["op"]] = tally.get(e["op"], 0) + 1
+                    rows_txt = [(r_[0], geom.to_py(kind, cats[cat][r_[1] - 1]), geom.to_py(kind2, cats[cat2][r_[2] - 1])) for r_ in tr["rows"]]
+                    if v != "accepted":
+                        e = tr["ev"][pos - 1] if 0 < pos <= len(tr["ev"]) else None
+                        why = (e or {}).get("what") or f"event {pos} {e} is not what World allows after the first {pos - 1} events"
+                        chk.violation(f"worldtrace|{kind}|{(e or {}).get('op')}|{str(why)[:40]}",
+                                      f"driver history rejected by Trace_World: rows (id, ga[{kind}], gb[{kind2}]) {rows_txt}\n  events {[(x['op'], x['a'], x['b']) for x in tr['ev'][:pos]]}\n  {why}"[:3000],
+                                      "# " + repr(tr)[:3000], ctx=dict(site="world.trace." + str((e or {}).get("op")), kind=kind))
+                    elif len(tr["ev"]) >= 5:
+                        chk.nontrivial_case(hash(repr(tr)))
+    finally:
+        shutil.rmtree(tmp, ignore_errors=True)
+    chk.notes["world_driver_histories"] = total
+    chk.notes["world_driver_events_per_action"] = dict(sorted(tally.items()))
+    chk.traces += total
+    return total
+
+
 def stage(chk, quick, seed):
     """run the World simulation stage inside a check; returns number of behaviours replayed"""
     import dask
